@@ -11,6 +11,12 @@ impl vstd::std_specs::cmp::PartialEqSpecImpl for Inp {
     open spec fn eq_spec(&self, other: &Inp) -> bool { *self == *other }
 }
 
+/// what dfa_from_regex needs of its regex: a bottom-up arena with the root in it and a follow
+/// cache that nobody filled before (Regex::from_expr builds it with an empty one)
+spec fn regex_wf(re: Regex) -> bool {
+    arena_wf(re.arena@) && nid(re.root_id) < re.arena@.len() && !cell_preset(re.follow_cache)
+}
+
 spec fn label(re: Regex, p: u32) -> Inp { inp_label(re.input_from_position@[p as int]) }
 
 spec fn step(re: Regex, s: ISet<u32>, a: Inp, t: u32, h: u32) -> bool {
